@@ -134,7 +134,10 @@ def run_session(job):
         gfa = os.path.join(d, "g.gfa" + (".gz" if gfa_gz else ""))
         write_text(gfa, gfa_text(segs, st["links"]), "gz" if gfa_gz else "plain")
         ulines = make_records(segs, st["walks"], rnd, blank_names=True)
-        if ulines and zlib.crc32(("long" + sid).encode()) % 5 == 0:
+        rep = opts.get("repeat", 1)
+        if rep > 1:       # the same alignments thousands of times (other reads): selections of more than 10,000 records
+            ulines = [f"c{j}_" + l for j in range(rep) for l in ulines]
+        if ulines and zlib.crc32(("long" + sid).encode()) % 5 == 0 and rep == 1:
             # one record longer than 64 KiB (a noisy long read with a huge CIGAR-like field): lines have no maximal length
             f0 = ulines[0].split("\t")
             ulines.append("\t".join(["long" + f0[0]] + f0[1:] + ["zz:Z:" + "p" * 70000, "zy:i:7"]))
@@ -166,13 +169,18 @@ def run_session(job):
                 cu = os.path.join(d, "conv_u.gaf")
                 r = run_cli(["view", F, "-g", gfa, "-f", "unstable", "-o", cu])
                 conv = lines_of(read_out(cu)) if r["status"] == "ok" else None
-            c = {"id": f"{sid}.{fmt}", "mode": mode, "truncated": False, "sampled": scale > 1, "segs": segs, "file": [abstract(l) for l in lines], "fmt": fmt,
+            c = {"id": f"{sid}.{fmt}", "mode": mode, "truncated": False, "sampled": scale > 1 or rep > 1, "singles_only": rep > 1, "segs": segs, "file": [abstract(l) for l in lines], "fmt": fmt,
                  "storage": storage, "gfa_gz": gfa_gz, "session": {k: st[k] for k in ("ref", "hap", "extra", "avoid")}}
             gvi = F + ".gvi"
             r = run_cli(["index", F, gfa])
             c["index_status"] = "ok" if r["status"] == "ok" and os.path.exists(gvi) else (r["status"] + ":" + r["exc"][:60])
             if mode == "C03":
                 c["idx"], c["refctg"] = ([], None)
+                if c["index_status"] == "ok" and zlib.crc32(("oidx" + c["id"]).encode()) % 3 == 0:
+                    # the index asked for at a place and under a name of the user's choice (-o): that file, as named, is the index
+                    gvi = os.path.join(d, "idx_" + fmt + "_" + ["my.index", "reads_idx", "out.gvi.v2"][zlib.crc32(c["id"].encode()) % 3])
+                    r = run_cli(["index", F, gfa, "-o", gvi])
+                    c["index_status"] = "ok" if r["status"] == "ok" and os.path.exists(gvi) else ("index_not_written_where_o_says:" + r["status"] + ":" + r["exc"][:40])
                 if c["index_status"] == "ok":
                     c["idx"], c["refctg"] = index_projection(gvi, F, lines, bgzf)
             elif c["index_status"] == "ok":
@@ -195,7 +203,7 @@ def run_session(job):
                 def view(args, ref):
                     if os.path.exists(o):
                         os.unlink(o)
-                    r = run_cli(["view", F, "-o", o] + iargs + args, timeout=1.5)
+                    r = run_cli(["view", F, "-o", o] + iargs + args, timeout=1.5 if rep == 1 else 60)
                     if r["status"] == "timeout":  # a loaded machine must not look like non-termination: ask again, patiently
                         if os.path.exists(o):
                             os.unlink(o)
@@ -208,7 +216,7 @@ def run_session(job):
                     stt, pos = view([], lines)
                     c["cat_status"], c["cat_pos"] = stt, pos
                     qs = []
-                    for ns in [[n] for n in names] + [[n, m] for n in names for m in names]:
+                    for ns in [[n] for n in names] + ([[n, m] for n in names for m in names] if rep == 1 else []):
                         args = [x for n in ns for x in ("-n", n)]
                         stt, pos = view(args, lines)
                         qs.append({"ns": ns, "fmt": "", "status": stt, "pos": pos})
@@ -269,7 +277,7 @@ def run_session(job):
                 c.update({"cat_status": "", "cat_pos": [], "queries": [], "fqueries": [], "rqueries": []})
             cases.append(c)
         if slines is None or len(slines) != len(ulines):
-            cases.append({"id": f"{sid}.stable", "mode": mode, "truncated": False, "sampled": scale > 1, "segs": segs, "file": [], "fmt": "stable", "index_status": "whole_file_conversion_failed",
+            cases.append({"id": f"{sid}.stable", "mode": mode, "truncated": False, "sampled": scale > 1, "singles_only": False, "segs": segs, "file": [], "fmt": "stable", "index_status": "whole_file_conversion_failed",
                           "idx": [], "cat_status": "", "cat_pos": [], "queries": [], "fqueries": [], "rqueries": []})
         return cases
     finally:
@@ -290,6 +298,10 @@ def run_mode(ctx, mode):
             k += 1
             sid = f"{cfg[10:-4]}-{k}"
             jobs.append((sid, st, mode, "bgzf" if k % 2 else "plain", k % 3 == 0, ctx.seed * 7919 + k, {"flagdir": flagdir, "scale": 7 if k % 5 == 0 else (9000 if k % 10 == 2 else 1)}))
+    if mode == "C04" and jobs:
+        # one small session repeated 5,200 times: every node is then on more than 10,000 records
+        big = next((j for j in jobs if 2 <= len(j[1]["walks"]) <= 3), jobs[0])
+        jobs.append((big[0] + "-x5200", big[1], mode, "plain", False, ctx.seed * 7919 + 77, {"flagdir": flagdir, "scale": 1, "repeat": 5200}))
     if ctx.thorough and len(jobs) > 6000:
         rnd = random.Random(ctx.seed)
         jobs = rnd.sample(jobs, 6000)
